@@ -365,10 +365,20 @@ pub fn run(rt: &tokio::runtime::Runtime, cols: &[&str]) -> Value {
         }
         // scenario <path of a scenario file>: one random draw through the same four plugins as tests/end2end.rs
         // (generate_mt -> publish_mt -> validate_mt -> parse_mt); every intermediate value is returned
-        "scenario" => {
-            let text = match std::fs::read_to_string(cols[1]) {
-                Ok(t) => t,
-                Err(e) => return json!({"bad_case": format!("read: {e}")}),
+        // scenario_json <hex scenario text>: the same with the scenario given inline (the check instantiates the
+        // `fake` nodes of a shipped scenario with values it chose from the generators' languages; everything else
+        // -- var, cat, substr, if, arithmetic -- is still evaluated by the library's own generator)
+        "scenario" | "scenario_json" => {
+            let text = if cols[0] == "scenario_json" {
+                match unhex_str(cols[1]) {
+                    Ok(t) => t,
+                    Err(e) => return json!({"bad_case": e}),
+                }
+            } else {
+                match std::fs::read_to_string(cols[1]) {
+                    Ok(t) => t,
+                    Err(e) => return json!({"bad_case": format!("read: {e}")}),
+                }
             };
             let schema: Value = match serde_json::from_str(&text) {
                 Ok(v) => v,
@@ -392,6 +402,48 @@ pub fn run(rt: &tokio::runtime::Runtime, cols: &[&str]) -> Value {
                 return json!({"ok": false, "stage": "parse", "display": e, "sample_json": sample, "sample_mt": mt, "validation_result": val});
             }
             json!({"ok": true, "sample_json": sample, "sample_mt": mt, "validation_result": val, "mt_json": m.data().get("mt_json").cloned().unwrap_or(Value::Null)})
+        }
+        // fakegen <hex json array of arguments> <count>: that many values of datafake's `fake` operator
+        // (validates the languages the scenario model assumes for the generators)
+        "fakegen" => {
+            let js = unhex_str(cols[1]).unwrap_or_default();
+            let args: Vec<Value> = match serde_json::from_str(&js) {
+                Ok(v) => v,
+                Err(e) => return json!({"bad_case": format!("json: {e}")}),
+            };
+            let n: usize = cols.get(2).and_then(|c| c.parse().ok()).unwrap_or(1);
+            let mut out = Vec::with_capacity(n);
+            for _ in 0..n {
+                match datafake_rs::operators::FakeOperator::generate(&args) {
+                    Ok(v) => out.push(v),
+                    Err(e) => return json!({"ok": false, "display": e.to_string()}),
+                }
+            }
+            json!({"ok": true, "values": out})
+        }
+        // pipeline <hex json text>: a generated-looking JSON through publish_mt -> validate_mt -> parse_mt
+        // (the last three plugins of tests/end2end.rs; the JSON is built outside from the scenario's template)
+        "pipeline" => {
+            let js = unhex_str(cols[1]).unwrap_or_default();
+            let sample: Value = match serde_json::from_str(&js) {
+                Ok(v) => v,
+                Err(e) => return json!({"bad_case": format!("json: {e}")}),
+            };
+            let mut m = Message::from_value(&json!({}));
+            m.data_mut().as_object_mut().unwrap().insert("sample_json".into(), sample);
+            m.invalidate_context_cache();
+            if let Err(e) = plugin_run(rt, &swift_mt_message::plugin::Publish, "publish_mt", &mut m, json!({"source": "sample_json", "target": "sample_mt"})) {
+                return json!({"ok": false, "stage": "publish", "display": e});
+            }
+            let mt = m.data().get("sample_mt").cloned().unwrap_or(Value::Null);
+            if let Err(e) = plugin_run(rt, &swift_mt_message::plugin::Validate, "validate_mt", &mut m, json!({"source": "sample_mt", "target": "validation_result"})) {
+                return json!({"ok": false, "stage": "validate", "display": e, "sample_mt": mt});
+            }
+            let val = m.data().get("validation_result").cloned().unwrap_or(Value::Null);
+            if let Err(e) = plugin_run(rt, &swift_mt_message::plugin::Parse, "parse_mt", &mut m, json!({"source": "sample_mt", "target": "mt_json"})) {
+                return json!({"ok": false, "stage": "parse", "display": e, "sample_mt": mt, "validation_result": val});
+            }
+            json!({"ok": true, "sample_mt": mt, "validation_result": val, "mt_json": m.data().get("mt_json").cloned().unwrap_or(Value::Null)})
         }
         // sample <MTnnn> <scenario name or -> <scenario base dir>: one random draw of a shipped scenario
         "sample" => {
